@@ -1,0 +1,114 @@
+//! Verification hooks (feature `verif-hooks`): read-only snapshots of the receiver state and
+//! control points of the call-site arena. Not part of the public API.
+
+use std::{
+    cell::RefCell,
+    sync::{
+        atomic::{AtomicUsize, Ordering},
+        RwLock,
+    },
+};
+
+use super::{LocalSpans, TracingEventReceiver};
+use crate::{CallSiteData, MetadataId, RawSpanId, TracedValues};
+
+/// Plain-data copy of the state of a [`TracingEventReceiver`]; all lists are sorted by ID.
+#[derive(Debug, Clone, Default)]
+pub struct VerifSnapshot {
+    /// `(id, content of the interned metadata, address of the interned metadata)`.
+    pub metadata: Vec<(MetadataId, CallSiteData, usize)>,
+    /// `(id, metadata_id, parent_id, ref_count, values)`.
+    pub spans: Vec<(RawSpanId, MetadataId, Option<RawSpanId>, usize, TracedValues<String>)>,
+    /// `(guest span ID, host span ID)`.
+    pub local_spans: Vec<(RawSpanId, u64)>,
+    /// Spans created in the current lifetime.
+    pub uncommitted: Vec<RawSpanId>,
+    /// `(span ID, number of unmatched enters)` in the current lifetime.
+    pub entered: Vec<(RawSpanId, usize)>,
+}
+
+impl TracingEventReceiver {
+    /// Takes a snapshot of the receiver state.
+    pub fn verif_snapshot(&self) -> VerifSnapshot {
+        let mut snapshot = VerifSnapshot {
+            metadata: self
+                .metadata
+                .iter()
+                .map(|(&id, &metadata)| {
+                    let address = metadata as *const tracing_core::Metadata<'static> as usize;
+                    (id, CallSiteData::from(metadata), address)
+                })
+                .collect(),
+            spans: self
+                .spans
+                .inner
+                .iter()
+                .map(|(&id, data)| {
+                    let values = data.values.clone();
+                    (id, data.metadata_id, data.parent_id, data.ref_count, values)
+                })
+                .collect(),
+            local_spans: self.local_spans.verif_entries(),
+            uncommitted: self
+                .current_execution
+                .uncommitted_span_ids
+                .iter()
+                .copied()
+                .collect(),
+            entered: self
+                .current_execution
+                .entered_span_ids
+                .iter()
+                .map(|(&id, &count)| (id, count))
+                .collect(),
+        };
+        snapshot.metadata.sort_by_key(|(id, ..)| *id);
+        snapshot.spans.sort_by_key(|(id, ..)| *id);
+        snapshot.uncommitted.sort_unstable();
+        snapshot.entered.sort_unstable();
+        snapshot
+    }
+}
+
+impl LocalSpans {
+    /// Returns `(guest span ID, host span ID)` pairs sorted by the guest ID.
+    pub fn verif_entries(&self) -> Vec<(RawSpanId, u64)> {
+        let mut entries: Vec<_> = self
+            .inner
+            .iter()
+            .map(|(&id, local_id)| (id, local_id.into_u64()))
+            .collect();
+        entries.sort_unstable();
+        entries
+    }
+}
+
+/// Number of strings leaked by the arena so far.
+pub static LEAKED_STRINGS: AtomicUsize = AtomicUsize::new(0);
+/// Number of metadata records leaked by the arena so far.
+pub static LEAKED_METADATA: AtomicUsize = AtomicUsize::new(0);
+
+pub(crate) fn count_leak(counter: &AtomicUsize) {
+    counter.fetch_add(1, Ordering::SeqCst);
+}
+
+/// Overrides the hash of call-site data used for bucketing in the arena (to force collisions).
+pub static HASH_OVERRIDE: RwLock<Option<fn(&CallSiteData) -> u64>> = RwLock::new(None);
+
+pub(crate) fn hash_override(data: &CallSiteData) -> Option<u64> {
+    let hash_fn = *HASH_OVERRIDE.read().unwrap();
+    hash_fn.map(|hash_fn| hash_fn(data))
+}
+
+thread_local! {
+    /// Per-thread callback invoked at the control points of the arena; the argument names the point.
+    pub static YIELD_HOOK: RefCell<Option<Box<dyn Fn(&'static str)>>> = RefCell::new(None);
+}
+
+pub(crate) fn yield_point(name: &'static str) {
+    YIELD_HOOK.with(|hook| {
+        if let Some(hook) = &*hook.borrow() {
+            hook(name);
+        }
+    });
+}
